@@ -16,7 +16,7 @@ from symx import mplstub
 from harness import common
 
 BOUNDS = {
-    "quick": {"options": "45 appearance options one at a time with symbolic numeric values", "plot": "standard line plot of mae along lead time (and along location for annotations), 2 inputs"},
+    "quick": {"options": "45 appearance options one at a time with symbolic numeric values, plus limits combined with ticks", "plot": "standard line plot of mae along lead time (and along location for annotations), 2 inputs"},
     "thorough": {"options": "same, plus all ordered pairs of 9 options", "plot": "same"},
 }
 ASSUMPTIONS = ["numeric option values are decimals with <= 3 places", "the dataset is concrete (its content is irrelevant to the dataflow of the options)"]
@@ -148,6 +148,21 @@ def options(S):
         t["-" + side] = (["-" + side, tok], None, lambda c, v=v, side=side: any_call(S, c, "fig", "subplots_adjust", lambda a, k: S.same(k[side], v)))
     t["-nomargin"] = (["-nomargin"], None, lambda c: any_call(S, c, "mpl", "subplots_adjust", lambda a, k: k["left"] == 0 and k["right"] == 1 and k["top"] == 1 and k["bottom"] == 0))
     t["-f"] = ([], None, lambda c: any_call(S, c, "mpl", "savefig", lambda a, k: a[0] == "out.png"))
+    # limits together with ticks: both arrive, and the limits are set last (matplotlib's set_xticks /
+    # set_yticks widen the view so that every tick is visible, which would override the user's limits)
+    def last_index(c, method):
+        idx = [i for i, call in enumerate(c.items) if call[0] == "ax" and call[1] == method]
+        return idx[-1] if idx else None
+    for axn in ("x", "y"):
+        la, lv = two("-%slim#2" % axn)
+        ta, tv = two("-%sticks#2" % axn)
+        t["-%slim with -%sticks" % (axn, axn)] = (
+            ["-%sticks" % axn, ta, "-%slim" % axn, la], None,
+            lambda c, axn=axn, lv=lv, tv=tv: S.and_(
+                any_call(S, c, "ax", "set_%slim" % axn, lambda a, k: seq_same(S, a[0], lv)),
+                any_call(S, c, "ax", "set_%sticks" % axn, lambda a, k: seq_same(S, a[0], tv)),
+                last_index(c, "set_%sticks" % axn) is not None and last_index(c, "set_%slim" % axn) is not None and
+                last_index(c, "set_%sticks" % axn) < last_index(c, "set_%slim" % axn)))
     # annotations along the location axis: 'score key' by default, the requested fields with -af
     t["-a"] = (["-a"], "location", lambda c: len(c.find("mpl", "text")) == 4)
     t["-af"] = (["-a", "-af", "lat,lon,elev,location"], "location",
